@@ -198,6 +198,7 @@ type sysRun struct {
 	verbose  bool
 	nq       int
 	lossSeen map[string]bool
+	flushIn  *flushCase // set in section flushrace: the reproduction of a failing query is the whole flush case
 	hullRace bool // the writer of the last batch is parked before onWriteCIndex (deterministic replay of F46)
 }
 
@@ -566,7 +567,10 @@ func (r *sysRun) doQuery(o op, specOnly bool) {
 		}
 	}
 	gotS, specS := runsOf(got), runsOf(spec)
-	in := r.inputWith(&op{Kind: "query", Lo: o.Lo, Hi: o.Hi, Page: o.Page, RPC: o.RPC})
+	var in interface{} = r.inputWith(&op{Kind: "query", Lo: o.Lo, Hi: o.Hi, Page: o.Page, RPC: o.RPC})
+	if r.flushIn != nil {
+		in = *r.flushIn
+	}
 	nontrivial := ""
 	if len(spec) > 0 && len(spec) < len(full) {
 		nontrivial = fmt.Sprintf("%p %s %s %d", r, optS(elo), optS(ehi), page)
@@ -1020,6 +1024,20 @@ func runDoc(d replayDoc, section string, sec *vh.Section, verbose bool) {
 			return
 		}
 		runSystem(h, section, sec, verbose)
+	case "cached":
+		var c cachedCase
+		if err := json.Unmarshal(d.Input, &c); err != nil {
+			res.Note("replay: bad cached input: %v", err)
+			return
+		}
+		runCachedCase(c, section, sec, verbose)
+	case "flushrace":
+		var c flushCase
+		if err := json.Unmarshal(d.Input, &c); err != nil {
+			res.Note("replay: bad flushrace input: %v", err)
+			return
+		}
+		runFlushCase(c, section, sec, verbose)
 	case "tree":
 		var c treeCase
 		if err := json.Unmarshal(d.Input, &c); err != nil {
@@ -1033,7 +1051,7 @@ func runDoc(d replayDoc, section string, sec *vh.Section, verbose bool) {
 }
 
 func sectionCorpus() {
-	sec := res.Section("corpus", "corpus", "witnesses of the fixed finding F01 and of the open findings F02, F03, F04, F24 plus minimised past failures; each is one history (or one interval sequence) replayed against IMPL, MODEL and SPEC")
+	sec := res.Section("corpus", "corpus", "witnesses of the fixed findings F01, F02, F03, F45 (regression cases that must pass) and of the open findings F04, F24 plus minimised past failures; each is one history (or one interval sequence) replayed against IMPL, MODEL and SPEC")
 	for _, f := range vh.CorpusFiles(args.Corpus) {
 		var d replayDoc
 		if err := vh.ReadJSON(f, &d); err != nil {
@@ -1067,6 +1085,8 @@ func main() {
 	sectionCIndex(rng.Fork("cindex"))
 	sectionSystem(rng.Fork("system"))
 	sectionHullRace()
+	sectionCached(rng.Fork("cached"))
+	sectionFlushRace(rng.Fork("flushrace"))
 	if args.Thorough {
 		sectionRace(rng.Fork("race"))
 	}
